@@ -175,3 +175,19 @@ pub fn heap_mark() -> usize {
 pub fn heap_peak() -> usize {
     PEAK_BYTES.load(AtomicOrdering::Relaxed)
 }
+
+/// Root under which work/, replays/ and evidence/ are written (default /verif).
+pub fn verif_root() -> String {
+    std::env::var("VERIF_ROOT").ok().filter(|s| !s.is_empty()).unwrap_or_else(|| "/verif".to_string())
+}
+
+/// The committed, read-only list of known findings: always the one in /verif unless the output root carries its own copy
+/// (a `vp run` snapshot of /verif does).
+pub fn known_findings_path() -> String {
+    let p = format!("{}/known_findings.json", verif_root());
+    if std::path::Path::new(&p).exists() {
+        p
+    } else {
+        "/verif/known_findings.json".to_string()
+    }
+}
